@@ -30,7 +30,7 @@ def run(ctx):
             return
         vf.mc(ctx, "MC_Preimages", vf.cfg_text(constants=c, invariants=["Inv96", "SlotsSorted", "LookupSound"], properties=["BlockStores", "AdmitOnly"],
                                               view="View", raw="CONSTANT Services <- %s\nCONSTANT Blobs <- %s" % (S, B)),
-              workers=3 if ctx.quick else 5, timeout=1500, label="MC_Preimages/" + lab)
+              workers=2 if ctx.quick else 5, timeout=1500, label="MC_Preimages/" + lab)
     with cf.ThreadPoolExecutor(4) as ex:
         fs = [ex.submit(mc_one, *a) for a in MCS]
         fg = None if ctx.replay else ex.submit(vf.gen_cases, ctx, "Preimages_Gen", {"Tier": '"%s"' % ctx.tier, "Seed": str(ctx.seed % 1000)}, timeout=1500, heap="6g")
